@@ -36,8 +36,8 @@ IsRead(op) == op \in ReadOps
 OkKeys(g, fam) == {k \in DOMAIN g : ~ForbiddenKey(k, fam) /\ ~Forbidden(g[k], fam)}
 
 DictApply(d, o, fam) ==
-  LET f == d.v
-      dom == DOMAIN d.v
+  LET f == d.m
+      dom == DOMAIN d.m
   IN CASE o.op = "getitem" -> Out(d, IF o.k \in dom THEN f[o.k] ELSE Err("KeyError"))
        [] o.op = "setitem" ->
             IF ForbiddenKey(o.k, fam) \/ Forbidden(o.x, fam) THEN Out(d, Err("Rejected"))
@@ -46,9 +46,9 @@ DictApply(d, o, fam) ==
             IF o.k \in dom THEN Out(D(DDel(f, o.k)), Null) ELSE Out(d, Err("KeyError"))
        [] o.op = "contains" -> Out(d, Bool(o.k \in dom))
        [] o.op = "len" -> Out(d, IntV(Cardinality(dom)))
-       [] o.op \in {"iter", "keys"} -> Out(d, [t |-> "keys", v |-> dom])
-       [] o.op = "values" -> Out(d, [t |-> "bag", v |-> f])
-       [] o.op = "items" -> Out(d, [t |-> "items", v |-> f])
+       [] o.op \in {"iter", "keys"} -> Out(d, [t |-> "keys", ks |-> dom])
+       [] o.op = "values" -> Out(d, [t |-> "bag", m |-> f])
+       [] o.op = "items" -> Out(d, [t |-> "items", m |-> f])
        [] o.op = "get" -> Out(d, IF o.k \in dom THEN f[o.k] ELSE o.y)
        [] o.op = "pop" ->
             IF o.k \in dom THEN Out(D(DDel(f, o.k)), f[o.k]) ELSE Out(d, o.y)
@@ -59,9 +59,9 @@ DictApply(d, o, fam) ==
        [] o.op = "update" ->
             IF ~IsD(o.x) THEN Out(d, Err("TypeError"))
             ELSE IF Forbidden(o.x, fam)
-              THEN {[val |-> D(DMerge(f, DRestrict(o.x.v, ks))), ret |-> Err("Rejected")]
-                      : ks \in SUBSET OkKeys(o.x.v, fam)}
-            ELSE Out(D(DMerge(f, o.x.v)), Null)
+              THEN {[val |-> D(DMerge(f, DRestrict(o.x.m, ks))), ret |-> Err("Rejected")]
+                      : ks \in SUBSET OkKeys(o.x.m, fam)}
+            ELSE Out(D(DMerge(f, o.x.m)), Null)
        [] o.op = "setdefault" ->
             IF o.k \in dom THEN Out(d, f[o.k])
             ELSE IF ForbiddenKey(o.k, fam) \/ Forbidden(o.y, fam) THEN Out(d, Err("Rejected"))
@@ -71,8 +71,8 @@ DictApply(d, o, fam) ==
        [] o.op = "reset" ->
             IF ~IsD(o.x) THEN Out(d, Err("ValueError"))
             ELSE IF Forbidden(o.x, fam)
-              THEN {[val |-> D(DMerge(f, DRestrict(o.x.v, ks))), ret |-> Err("Rejected")]
-                      : ks \in SUBSET OkKeys(o.x.v, fam)}
+              THEN {[val |-> D(DMerge(f, DRestrict(o.x.m, ks))), ret |-> Err("Rejected")]
+                      : ks \in SUBSET OkKeys(o.x.m, fam)}
             ELSE Out(o.x, Null)
        [] o.op = "call" -> Out(d, d)
 
@@ -117,8 +117,8 @@ FirstIdx(s, x) == LET hits == {m \in 1..Len(s) : PyEq(s[m], x)}
 CmpRet(c) == IF c = "E" THEN Err("TypeError") ELSE S(c)
 
 ListApply(l, o, fam) ==
-  LET s == l.v
-      n == Len(l.v)
+  LET s == l.s
+      n == Len(l.s)
   IN CASE o.op = "getitem" ->
             Out(l, IF InRange(o.i, n) THEN s[NormIdx(o.i, n) + 1] ELSE Err("IndexError"))
        [] o.op = "getslice" ->
@@ -137,11 +137,11 @@ ListApply(l, o, fam) ==
                      q == SliceIdx(sp)
                  IN IF sp.step = 1
                       THEN LET stop == Max2(sp.start, sp.stop)
-                           IN Out(L(SubSeq(s, 1, sp.start) \o o.x.v \o SubSeq(s, stop + 1, n)), Null)
-                    ELSE IF Len(o.x.v) # Len(q) THEN Out(l, Err("ValueError"))
+                           IN Out(L(SubSeq(s, 1, sp.start) \o o.x.s \o SubSeq(s, stop + 1, n)), Null)
+                    ELSE IF Len(o.x.s) # Len(q) THEN Out(l, Err("ValueError"))
                     ELSE Out(L([m \in 1..n |->
                                  IF (m - 1) \in SeqRange(q)
-                                   THEN o.x.v[CHOOSE z \in DOMAIN q : q[z] = m - 1]
+                                   THEN o.x.s[CHOOSE z \in DOMAIN q : q[z] = m - 1]
                                    ELSE s[m]]), Null)
        [] o.op = "delitem" ->
             IF InRange(o.i, n) THEN Out(L(RemoveAt(s, NormIdx(o.i, n))), Null)
@@ -162,11 +162,11 @@ ListApply(l, o, fam) ==
        [] o.op = "extend" ->
             IF Forbidden(o.x, fam) THEN Out(l, Err("Rejected"))
             ELSE IF ~IsL(o.x) THEN Out(l, Err("TypeError"))
-            ELSE Out(L(s \o o.x.v), Null)
+            ELSE Out(L(s \o o.x.s), Null)
        [] o.op = "iadd" ->
             IF Forbidden(o.x, fam) THEN Out(l, Err("Rejected"))
             ELSE IF ~IsL(o.x) THEN Out(l, Err("TypeError"))
-            ELSE Out(L(s \o o.x.v), [t |-> "self"])
+            ELSE Out(L(s \o o.x.s), [t |-> "self"])
        [] o.op = "insert" ->
             IF Forbidden(o.x, fam) THEN Out(l, Err("Rejected"))
             ELSE Out(L(InsertAt(s, ClampIns(o.i, n), o.x)), Null)
@@ -182,7 +182,7 @@ ListApply(l, o, fam) ==
        [] o.op = "reset" ->
             IF ~IsL(o.x) THEN Out(l, Err("ValueError"))
             ELSE IF Forbidden(o.x, fam) THEN
-              {[val |-> L(q), ret |-> Err("Rejected")] : q \in {s} \cup {SubSeq(o.x.v, 1, m) \o SubSeq(s, m + 1, n) : m \in 0..Len(o.x.v)}}
+              {[val |-> L(q), ret |-> Err("Rejected")] : q \in {s} \cup {SubSeq(o.x.s, 1, m) \o SubSeq(s, m + 1, n) : m \in 0..Len(o.x.s)}}
             ELSE Out(o.x, Null)
        [] o.op = "eq" -> Out(l, Bool(PyEq(l, o.x)))
        [] o.op = "ne" -> Out(l, Bool(~PyEq(l, o.x)))
@@ -205,7 +205,7 @@ Destroys(v, o, out) ==
       [] o.op \in {"popitem", "clear", "reset", "update"} -> [all |-> TRUE, steps |-> {}]
       [] OTHER -> [all |-> FALSE, steps |-> {}]
   ELSE
-    CASE o.op = "setitem" -> [all |-> FALSE, steps |-> IF InRange(o.i, Len(v.v)) THEN {IStep(NormIdx(o.i, Len(v.v)))} ELSE {}]
+    CASE o.op = "setitem" -> [all |-> FALSE, steps |-> IF InRange(o.i, Len(v.s)) THEN {IStep(NormIdx(o.i, Len(v.s)))} ELSE {}]
       [] o.op \in {"append", "extend", "iadd"} -> [all |-> FALSE, steps |-> {}]
       [] o.op \in {"setslice", "delitem", "delslice", "insert", "pop", "remove", "reverse",
                    "clear", "reset"} -> [all |-> TRUE, steps |-> {}]
